@@ -10,6 +10,7 @@
 -/
 import PrologVerif.Proofs.CollectWitness
 import PrologVerif.Proofs.CollectOrder
+import PrologVerif.Proofs.CollectCanon
 namespace PrologVerif.C11
 open PrologVerif PrologVerif.Collect PrologVerif.CollectSpec
 
@@ -23,6 +24,13 @@ theorem variant_equiv :
     (∀ t1 t2 t3, variant t1 t2 = true → variant t2 t3 = true → variant t1 t3 = true) ∧
     (∀ t1 t2, variant t1 t2 = true ↔ Variant t1 t2) :=
   ⟨variant_isEquivB.refl, variant_isEquivB.symm, variant_isEquivB.trans, variant_iff⟩
+
+/-- the specification oracle of the streams (`CollectSpec.classesOf`, `c11.variant`) decides "variant"
+    by comparing canonical forms (variables numbered by first occurrence): that is ISO's variant, so
+    on all terms it agrees with the repaired `variant` of the model -/
+theorem C11_oracle_variant (t1 t2 : Term) :
+    (t1.canon = t2.canon ↔ Variant t1 t2) ∧ (variant t1 t2 = true ↔ t1.canon = t2.canon) :=
+  ⟨canon_eq_iff_variant t1 t2, (variant_iff t1 t2).trans (canon_eq_iff_variant t1 t2).symm⟩
 
 /-- the two terms of defect D11: `(A,B)` and `(C,C)` -/
 def d11_AB : Term := Term.a2 "," (.var 0) (.var 1)
